@@ -1215,6 +1215,34 @@ def c11(ctx):
         out.append(bad(R, key, '; '.join(problems), fn=k.name))
     else:
         out.append(ok(R, key, 'poll -> Some(item): process(item), await to completion, poll again; Pending -> keep (true); None -> stop (false)', fn=k.name))
+    # a wake-up of the pipe's waker always leads to a poll job (unless this waker was already used): a wake that arrives while the stream
+    # is being polled queues the next poll behind the running one, which is what keeps a self-waking stream going
+    pw = F.fn('<desync::PipeWaker as futures_task::arc_wake::ArcWake>::wake_by_ref')
+    key2 = 'PipeWaker|wake-always-polls'
+    if not pw:
+        out.append(undecided(R, key2, 'anchor not found'))
+    else:
+        takes = [(bb, t) for bb, t in calls(pw, 'core::option::Option::take') if '.context' in render(pw.expr_of_operand(t['args'][0]))]
+        ppolls = set(bb for bb, t in calls(pw, 'PipeContext::poll'))
+        exits_ = set(pw.exits())
+        if not ppolls:
+            out.append(bad(R, key2, 'PipeWaker::wake_by_ref no longer schedules a poll of the pipe', fn=pw.name))
+        elif not takes:
+            if pw.must_pass(0, exits_, ppolls):
+                out.append(ok(R, key2, 'every wake-up schedules a poll of the pipe', fn=pw.name))
+            else:
+                out.append(bad(R, key2, 'a wake-up can return without scheduling a poll of the pipe: the stream has signalled new data and nobody will read it', fn=pw.name))
+        else:
+            tb, tt = takes[0]
+            e_ = result_edges(pw, tb)
+            some_ = edge_for(e_, OPTION, 'Some') if e_ else None
+            if some_ is None:
+                out.append(undecided(R, key2, 'test of the taken context not recognised'))
+            elif pw.must_pass(0, exits_, {tb}) and pw.must_pass(some_, exits_, ppolls):
+                out.append(ok(R, key2, 'every wake-up takes the context, and a context that was still there is always polled', fn=pw.name))
+            else:
+                out.append(bad(R, key2, 'a wake-up can return without taking the context or without polling the pipe it found: the stream has signalled new data '
+                               '(possibly from inside its own poll) and nobody will read it; the pipe sleeps for ever with its waker spent or ignored', fn=pw.name))
     # the context used for the stream poll is built from the closure's own waker parameter
     fw = calls(k, 'core::task::wake::Context::from_waker')
     key = 'pipe_in|stream-waker'
